@@ -146,7 +146,8 @@ Definition parse_records (b : bytes) : pres (list record) := parse_records_f (le
 Inductive skind :=
 | KInt32 | KInt64 | KUint32 | KUint64 | KSint32 | KSint64 | KFixed32 | KFixed64 | KSfixed32 | KSfixed64
 | KDouble | KFloat | KBool | KString | KBytes
-| KEnum (vals : list (bytes * Z))          (* (name, number) in declaration order *)
+| KEnum (vals : list (bytes * Z)) (dflt : Z)   (* (name, number) as EnumDescriptor::values() yields them; the number of
+                                                 EnumDescriptor::default_value() (the first DECLARED value) *)
 | KMsg (idx : nat).                         (* index into the pool *)
 
 Inductive card :=
@@ -237,8 +238,6 @@ Definition is_nan (f : spec_float) : bool := match f with S754_nan => true | _ =
 
 (* ---------- defaults and presence ---------- *)
 
-Definition enum_default (vals : list (bytes * Z)) : Z := match vals with (_, n) :: _ => n | [] => 0%Z end.
-
 (* Value::default_value(kind) *)
 Definition default_of (k : skind) : pval :=
   match k with
@@ -247,7 +246,7 @@ Definition default_of (k : skind) : pval :=
   | KBool => PBool false
   | KString => PStr []
   | KBytes => PBytes []
-  | KEnum vals => PEnum (enum_default vals)
+  | KEnum _ dflt => PEnum dflt
   | KMsg _ => PMsg []
   | _ => PInt 0
   end.
@@ -259,7 +258,7 @@ Definition is_default_scalar (k : skind) (v : pval) : bool :=
   | KDouble, PF64 f | KFloat, PF32 f => is_zero_float f
   | KBool, PBool b => negb b
   | KString, PStr s | KBytes, PBytes s => match s with [] => true | _ => false end
-  | KEnum vals, PEnum z => Z.eqb z (enum_default vals)
+  | KEnum _ dflt, PEnum z => Z.eqb z dflt
   | KMsg _, PMsg fs => match fs with [] => true | _ => false end
   | _, PInt z => Z.eqb z 0
   | _, _ => false
@@ -292,7 +291,7 @@ Definition enc_packed_elem (k : skind) (v : pval) : bytes :=
   | KDouble, PF64 f => le_bytes 8 (Z.to_N (f64_to_bits f))
   | KFloat, PF32 f => le_bytes 4 (Z.to_N (f32_to_bits f))
   | KBool, PBool b => encode_varint (bool_n b)
-  | KEnum _, PEnum z => encode_varint (to_u64 z)
+  | KEnum _ _, PEnum z => encode_varint (to_u64 z)
   | _, _ => []
   end.
 
@@ -312,7 +311,7 @@ Section Enc.
     | KBool, PBool b => Some (WVarint (bool_n b))
     | KString, PStr s => Some (WLen s)
     | KBytes, PBytes s => Some (WLen s)
-    | KEnum _, PEnum z => Some (WVarint (to_u64 z))
+    | KEnum _ _, PEnum z => Some (WVarint (to_u64 z))
     | KMsg i, PMsg fs => Some (WLen (enc_msg (get_msg P i) fs))
     | _, _ => None
     end.
@@ -379,7 +378,7 @@ Definition dec_plain (k : skind) (w : wval) : pres pval :=
   | KBool => pbind (expect_varint w) (fun n => POk (PBool (negb (n =? 0)%N)))
   | KString => pbind (expect_len w) (fun s => if valid_utf8 s then POk (PStr s) else PErr)
   | KBytes => pbind (expect_len w) (fun s => POk (PBytes s))
-  | KEnum _ => pbind (expect_varint w) (fun n => POk (PEnum (wrap_s 32 (Z.of_N n))))
+  | KEnum _ _ => pbind (expect_varint w) (fun n => POk (PEnum (wrap_s 32 (Z.of_N n))))
   | KMsg _ => PErr
   end.
 
